@@ -247,7 +247,7 @@ def check_cpp(model, cm, proto, rng, quick, stats, viols, seedinfo):
         d["lang"] = "cpp"
         d["batch"] = runs[1 + cuts.index(p)]["batch"]
         if res.get("crashed"):
-            viols.append(({"class": "reader_hangs_on_truncated_stream" if res.get("hang") else "reader_crashed_on_truncated_stream", "lang": "cpp", "format": "binary", "position_class": cls}, d))
+            viols.append(({"class": "reader_hangs_on_truncated_stream" if res.get("hang") else ("error_report_points_into_freed_memory" if res.get("invalid_memory") else "reader_crashed_on_truncated_stream"), "lang": "cpp", "format": "binary", "position_class": cls}, d))
             return
         if res["ok"]:
             viols.append(({"class": "truncation_not_reported", "lang": "cpp", "format": "binary", "position_class": cls}, d))
@@ -369,7 +369,7 @@ def check_cpp_ndjson(model, cm, proto, rng, quick, stats, viols, seedinfo):
         d["lang"] = "cpp"
         d["batch"] = runs[1 + cuts.index(p)]["batch"]
         if res.get("crashed"):
-            viols.append(({"class": "reader_hangs_on_truncated_stream" if res.get("hang") else "reader_crashed_on_truncated_stream", "lang": "cpp", "format": "ndjson", "position_class": cls}, d))
+            viols.append(({"class": "reader_hangs_on_truncated_stream" if res.get("hang") else ("error_report_points_into_freed_memory" if res.get("invalid_memory") else "reader_crashed_on_truncated_stream"), "lang": "cpp", "format": "ndjson", "position_class": cls}, d))
             return
         if res["ok"]:
             complete = False
@@ -463,7 +463,7 @@ def versioned_task(task, ybin, root):
                          "seed": seed, "model_index": i, "batch": runs[1 + cuts.index(p)]["batch"]}
                     cls = "cut_on_value_boundary" if p in marks else "cut_inside_value"
                     if res.get("crashed"):
-                        viols.append(({"class": "reader_hangs_on_truncated_stream" if res.get("hang") else "reader_crashed_on_truncated_stream", "lang": "cpp", "format": "binary(previous version)", "position_class": cls}, d))
+                        viols.append(({"class": "reader_hangs_on_truncated_stream" if res.get("hang") else ("error_report_points_into_freed_memory" if res.get("invalid_memory") else "reader_crashed_on_truncated_stream"), "lang": "cpp", "format": "binary(previous version)", "position_class": cls}, d))
                         break
                     if res["ok"]:
                         viols.append(({"class": "truncation_not_reported", "lang": "cpp", "format": "binary(previous version)", "position_class": cls}, d))
